@@ -14,6 +14,8 @@ import (
 	"google.golang.org/grpc/status"
 	"google.golang.org/protobuf/encoding/protojson"
 	"google.golang.org/protobuf/proto"
+	"google.golang.org/protobuf/reflect/protoreflect"
+	"google.golang.org/protobuf/types/dynamicpb"
 
 	"larking.io/larking"
 
@@ -101,6 +103,19 @@ func newC18Env() *c18Env {
 	return &c18Env{t: t, muxes: map[string]*larking.Mux{}, impls: map[string]*tImpl{}, il: map[string]*icptLog{}, sl: map[string]*statsLog{}}
 }
 
+// shapes beyond the four call shapes: other ways HTTP transcoding builds the request message
+// or the response body (URL-only GET, google.api.HttpBody request/response, streamed HttpBody
+// upload, response_body selector).
+var c18Method = map[string]string{"unary": "Unary", "cs": "CS", "ss": "SS", "bidi": "Bidi", "get": "Unary", "get-ss": "SS", "raw": "Raw", "sel": "Sel", "up": "Upload"}
+
+func c18Unary(shape string) bool {
+	switch shape {
+	case "unary", "get", "raw", "sel":
+		return true
+	}
+	return false
+}
+
 var errIntercepted = status.Error(codes.AlreadyExists, "intercepted")
 var errBlocked = status.Error(codes.Unauthenticated, "blocked")
 
@@ -121,7 +136,7 @@ func (e *c18Env) mux(icpt string, st bool) (*larking.Mux, *tImpl, *icptLog, *sta
 			rsp, err := handler(ctx, req)
 			switch icpt {
 			case "reply":
-				if err == nil {
+				if err == nil && rsp.(proto.Message).ProtoReflect().Descriptor() == e.t.rsp {
 					return e.t.newRsp("intercepted", nil, 42), nil
 				}
 			case "error":
@@ -177,6 +192,28 @@ func (e *c18Env) call(tc *c18Case, icpt string, st bool) (obs c18Obs, lg hLog, i
 	if tc.Shape == "ss" || tc.Shape == "bidi" {
 		replies = append(replies, e.t.newRsp("", nil, 0)) // an empty second reply
 	}
+	newBody := func(ct string, data []byte) proto.Message {
+		b := dynamicpb.NewMessage(e.t.body)
+		if ct != "" {
+			b.Set(e.t.body.Fields().ByName("content_type"), protoreflect.ValueOfString(ct))
+		}
+		if len(data) > 0 {
+			b.Set(e.t.body.Fields().ByName("data"), protoreflect.ValueOfBytes(data))
+		}
+		return b
+	}
+	switch tc.Shape {
+	case "raw":
+		replies = []proto.Message{newBody("application/x-raw", c06Payload(9, tc.Size))}
+	case "up":
+		replies = []proto.Message{newBody("application/x-raw", c06Payload(9, tc.Size)), newBody("", []byte("tail"))}
+	case "sel":
+		w := dynamicpb.NewMessage(e.t.wrap)
+		w.Set(e.t.wrap.Fields().ByName("rsp"), protoreflect.ValueOfMessage(e.t.newRsp("", c06Payload(9, tc.Size), 0).ProtoReflect()))
+		replies = []proto.Message{w}
+	case "get-ss":
+		replies = append(replies, e.t.newRsp("", nil, 0))
+	}
 	hs := hScript{RecvN: -1, Replies: replies, Err: herr, ErrAfter: 1}
 	if tc.Proto == "ws" {
 		hs.RecvN = nIn
@@ -202,11 +239,27 @@ func (e *c18Env) call(tc *c18Case, icpt string, st bool) (obs c18Obs, lg hLog, i
 		js, _ := protojson.Marshal(rm)
 		pbs, jss = append(pbs, pb), append(jss, js)
 	}
-	method := shapeMethod[tc.Shape]
+	method := c18Method[tc.Shape]
 	full := "/vs.T/" + method
 	var res *callResult
+	switch {
+	case tc.Shape == "get" || tc.Shape == "get-ss":
+		res = doHTTP(m, "GET", map[string]string{"get": "/t/unary/", "get-ss": "/t/ss/"}[tc.Shape]+strings.Repeat("v", tc.Size+1), "", http.Header{}, reqBody{CL: 0})
+	case tc.Shape == "raw" || tc.Shape == "up":
+		body := c06Payload(0, tc.Size)
+		cl := int64(-1)
+		if len(body) == 0 {
+			cl = 0
+		}
+		res = doHTTP(m, "POST", map[string]string{"raw": "/t/raw/f.bin", "up": "/t/up/f.bin"}[tc.Shape], "", http.Header{"Content-Type": {"application/octet-stream"}}, reqBody{Data: body, CL: cl})
+	case tc.Shape == "sel":
+		res = doHTTP(m, "POST", "/t/sel", "", http.Header{"Content-Type": {"application/json"}}, reqBody{Data: jss[0], CL: -1})
+	}
 	switch tc.Proto {
 	case "http-json":
+		if res != nil {
+			break
+		}
 		var body []byte
 		for _, j := range jss {
 			body = append(body, j...)
@@ -283,8 +336,8 @@ func (e *c18Env) exec(tc *c18Case) (oracle, note string) {
 	if o != "" {
 		return o, n
 	}
-	unaryMethod := tc.Shape == "unary"
-	full := "/vs.T/" + shapeMethod[tc.Shape]
+	unaryMethod := c18Unary(tc.Shape)
+	full := "/vs.T/" + c18Method[tc.Shape]
 	// ---- interceptors
 	if tc.Icpt != "none" {
 		wantU, wantS := 0, 1
@@ -298,8 +351,8 @@ func (e *c18Env) exec(tc *c18Case) (oracle, note string) {
 			return "interceptor-method", fmt.Sprintf("FullMethod %q want %q", il.method, full)
 		}
 		if !unaryMethod {
-			wcs := tc.Shape == "cs" || tc.Shape == "bidi"
-			wss := tc.Shape == "ss" || tc.Shape == "bidi"
+			wcs := tc.Shape == "cs" || tc.Shape == "bidi" || tc.Shape == "up"
+			wss := tc.Shape == "ss" || tc.Shape == "bidi" || tc.Shape == "up" || tc.Shape == "get-ss"
 			if il.cs != wcs || il.ss != wss {
 				return "interceptor-flags", fmt.Sprintf("IsClientStream=%v IsServerStream=%v for shape %s", il.cs, il.ss, tc.Shape)
 			}
@@ -333,7 +386,7 @@ func (e *c18Env) exec(tc *c18Case) (oracle, note string) {
 			return "interceptor-result-lost", fmt.Sprintf("client sees %q, interceptor returned %q", got, wantStatus)
 		}
 	}
-	if tc.Icpt == "reply" && unaryMethod && !tc.Fail {
+	if tc.Icpt == "reply" && (tc.Shape == "unary" || tc.Shape == "get") && !tc.Fail {
 		want := e.t.newRsp("intercepted", nil, 42)
 		ok := false
 		switch tc.Proto {
@@ -463,12 +516,26 @@ func c18Cases(thorough bool) []c18Case {
 			}
 		}
 	}
+	for _, sh := range []string{"get", "get-ss", "raw", "sel", "up"} {
+		for _, sz := range []int{0, 1, 5, 100, 5000} {
+			for _, fail := range []bool{false, true} {
+				for _, ic := range []string{"none", "pass", "reply", "error", "short"} {
+					for _, st := range []bool{false, true} {
+						if ic == "none" && !st {
+							continue
+						}
+						out = append(out, c18Case{Proto: "http-json", Shape: sh, Size: sz, Fail: fail, Icpt: ic, Stats: st})
+					}
+				}
+			}
+		}
+	}
 	return out
 }
 
 func runC18(c *Ctx) {
 	r := c.Run
-	r.Rule("protocol{HTTP json, HTTP protobuf, gRPC, gRPC-web, WebSocket} × shape{unary, client-, server-, bidi-streaming} × payload size{0,1,2,3,4,5,6,100} (total message sizes from 0 bytes upward, incl. an empty second message) × handler{ok, fails} × interceptor{none, pass-through, replaces the reply, replaces the error, short-circuits} × stats handler{off,on} × handler metadata{none, header+trailer}; each compared with the same call on a mux without options; distinct = all case parameters")
+	r.Rule("protocol{HTTP json, HTTP protobuf, gRPC, gRPC-web, WebSocket} × shape{unary, client-, server-, bidi-streaming; and for HTTP transcoding also: URL-only GET (unary and server-streaming), google.api.HttpBody request+response, streamed HttpBody upload, response_body selector} × payload size{0,1,2,3,4,5,6,100} (total message sizes from 0 bytes upward, incl. an empty second message) × handler{ok, fails} × interceptor{none, pass-through, replaces the reply, replaces the error, short-circuits} × stats handler{off,on} × handler metadata{none, header+trailer}; each compared with the same call on a mux without options; distinct = all case parameters")
 	r.Assume("payload events are not demanded on WebSocket (the property lists HTTP transcoding, gRPC and gRPC-web)", "the framing of an error after HTTP stream messages is not demanded")
 	cases := c18Cases(c.Thorough())
 	envs := make([]*c18Env, explore.Workers)
